@@ -75,7 +75,7 @@ class AstGen:
         s = {"location": self.loc(), "keyword": KEYWORD[kt], "keywordType": kt, "text": self.tmpl(hdrs)}
         c = r.random()
         if c < 0.2:
-            nc = r.randint(1, 3)
+            nc = r.choice([0, 1, 1, 2, 2, 3])
             rows = [self.row([self.tmpl(hdrs) for _ in range(nc)]) for _ in range(r.randint(1, 3))]
             s["dataTable"] = {"location": rows[0]["location"], "rows": rows}
         elif c < 0.4:
@@ -97,7 +97,8 @@ class AstGen:
         nex = r.choice([0, 0, 0, 1, 1, 2, 3, 4])
         for _ in range(nex):
             names = NAMES if self.hostile else ["a", "b", "h"]
-            hdrs = [r.choice(names) for _ in range(r.randint(1, 3))]
+            # 0 columns: the header (and every body row) is a bare '|', which the parser returns with cells == []
+            hdrs = [r.choice(names) for _ in range(r.choice([0, 1, 1, 1, 2, 2, 3]))]
             hdrs_all += hdrs
             ex = {"location": self.loc(), "tags": self.tags(), "keyword": "Examples", "name": "", "description": "", "tableBody": []}
             if r.random() < 0.8:
